@@ -100,8 +100,8 @@ class GhostBlocks(object):
 
 
 class _PartitionLoop(LoopSpec):
-    def __init__(self, idx, blocks, cur):
-        self.idx_name, self.blocks_name, self.cur_name = idx, blocks, cur
+    def __init__(self, idx, blocks, cur, frozen=()):
+        self.idx_name, self.blocks_name, self.cur_name, self.frozen = idx, blocks, cur, frozen
 
     def enter(self, it, fr):
         if isinstance(fr.locals[self.blocks_name], list):
@@ -109,14 +109,18 @@ class _PartitionLoop(LoopSpec):
             fr.locals[self.blocks_name] = GhostBlocks(it)
         blk = fr.locals[self.cur_name]
         blk._instructions = _as_rope(blk._instructions)
-        self.others = [n for n, v in fr.locals.items() if isinstance(v, (int, Sym)) and not isinstance(v, bool) and n != self.idx_name]
+        self.others = [n for n, v in fr.locals.items() if isinstance(v, (int, Sym)) and not isinstance(v, bool) and n != self.idx_name
+                       and n not in self.frozen]
 
     def havoc(self, it, fr, k):
         M = it.cfg['M']
-        i = it.path.fresh_int('i')
         a = it.path.fresh_int('a')
         self.a = a.e
-        fr.locals[self.idx_name] = i
+        if self.idx_name is not None:
+            i = it.path.fresh_int('i')
+            fr.locals[self.idx_name] = i
+        else:
+            i = k                                              # for i in range(len(..)): the position is the ghost index
         fr.locals[self.blocks_name].summary = [(M, z3.IntVal(0), a.e)]
         fr.locals[self.blocks_name].pending = []
         # the block under construction: any block object whose instruction list is M[a:i]
@@ -134,7 +138,7 @@ class _PartitionLoop(LoopSpec):
     def inv(self, it, fr, k):
         M = it.cfg['M']
         n = it.cfg['n']
-        i = sym._as_int_expr(fr.locals[self.idx_name])
+        i = sym._as_int_expr(fr.locals[self.idx_name] if self.idx_name is not None else k)
         blocks = fr.locals[self.blocks_name]
         blk = fr.locals[self.cur_name]
         cur = _as_rope(getattr(blk, '_instructions', None))
@@ -164,7 +168,19 @@ def classify(node):
     idx, blocks, cur = _roles(node)
     if isinstance(node, ast.While) and None not in (idx, blocks, cur):
         return _PartitionLoop(idx, blocks, cur), 'partition'
+    if isinstance(node, ast.For) and None not in (blocks, cur) and isinstance(node.target, ast.Name):
+        # for i in range(len(items)): the loop variable is the position; integers the loop does not assign keep their value
+        assigned = set(t.id for n in ast.walk(node) for t in (getattr(n, 'targets', None) or [getattr(n, 'target', None)]) if isinstance(t, ast.Name))
+        return _PartitionLoop(None, blocks, cur, frozen=_Unassigned(assigned)), 'partition'
     return None
+
+
+class _Unassigned(object):
+    def __init__(self, assigned):
+        self.assigned = assigned
+
+    def __contains__(self, name):
+        return name not in self.assigned
 
 
 class PartitionUnbounded(Case):
